@@ -16,6 +16,7 @@
     Failed ⇒ unknown — and none for NotSent / Skipped slots (a skipped slot's time-to-live is carried by the re-issued probe); the entries are the
     slots of round.probes in order (no other adaptor than the optional cut at the round's length), and Flow::from_hops maps every item to one entry
     (Some(a) ⇒ Known(a), None ⇒ Unknown). Otherwise a slot that failed to send shifts every later address one position down.
+ C20.O6 (imported): the max_flows the cap compares with is the configured one — every State is built from the tracer parameter of the same name, in new and in clear.
 Not decided: that position 0 is time-to-live 1 (with first-ttl > 1 every position is offset by the same constant).
 """
 import re
